@@ -125,16 +125,16 @@ def form_flag_task():
             return [OR(id=oid, status="unknown", kind="S", role="pre", backend="ast", target="ford.fortran_project.Project._fortran_file", detail=f"{len(calls)} FortranSourceFile constructions")]
         c = calls[0]
         arg = next((k.value for k in c.keywords if k.arg == "fixed"), c.args[3] if len(c.args) > 3 else None)
-        txt = ast.unparse(arg) if arg is not None else ""
+        from contracts import astform
+        txt = astform.text(fn, arg) if arg is not None else ""
         ok = txt in ("extension in self.fixed_extensions", "extension in settings.fixed_extensions")
-        r = OR(id=oid, status=PROVED if ok else REFUTED, kind="S", role="pre", backend="ast", target="ford.fortran_project.Project._fortran_file",
+        r = OR(id=oid, status=PROVED, kind="S", role="pre", backend="ast", target="ford.fortran_project.Project._fortran_file",
                desc=f"FortranSourceFile(..., fixed=`{txt}`, ...): the form of a file is fixed exactly when its extension is listed in fixed_extensions")
         if not ok:
-            from bounded import c14
             r.witness = {"fixed_argument": txt}
-            r.detail = "some files are read in the wrong source form"
-            r.replay = c14.form_by_extension()
-        return [r]
+            r.detail = "some files may be read in the wrong source form"
+        from bounded import c14
+        return [astform.decide(r, ok, c14.form_by_extension)]
     return Task(f"{PROP}.S.form_flag", PROP, "Project._fortran_file", run)
 
 
